@@ -478,7 +478,16 @@ def judge_merge(case, rec):
                 break
             for (qa, qm) in corr + [(pA, pM)]:
                 rec.compared()
-                if not _vec_close(selA[:, qa], selM[:, qm]):
+                va_, vm_ = selA[:, qa], selM[:, qm]
+                if inexact and qa == pA:
+                    # a column against itself: t = 0 unless the standard error is 0 (0/0 =
+                    # NaN); with weights that are not exactly representable a standard
+                    # error of "0" is 0 or 1e-9 by rounding, differently in the two runs
+                    neutral = 0.0 if fn.endswith("t_stats") else 1.0   # t = 0, p = 1
+                    keep = ~((np.isnan(va_) & (np.nan_to_num(vm_, nan=-9.0) == neutral))
+                             | (np.isnan(vm_) & (np.nan_to_num(va_, nan=-9.0) == neutral)))
+                    va_, vm_ = va_[keep], vm_[keep]
+                if not _vec_close(va_, vm_):
                     rec.violation("%s(selected=subtotal)[:, %d] %r vs merged %r" % (
                         fn, qa, selA[:, qa].tolist(), selM[:, qm].tolist()),
                         _wave_sig(selA[:, qa], selM[:, qm], wave_pos, "merge-" + fn))
